@@ -11,9 +11,11 @@
        (so too few or too many images are reported by some call).
    NOT MODELLED (decided by fault enumeration on every run, harness/src/c19.rs, with three known findings): failures in the middle of a chunk
    (the bytes of a refused chunk), the stream writer's own finish/Drop path, frame-parameter setters, raw/text chunks, panics (Rust runtime). *)
+From Coq Require Import ZArith.
 From Coq Require Import List Arith Bool Lia.
 Import ListNotations.
 From PngV Require Import Spec.Validator Model.Encoder Proofs.EncoderProofs Model.WriterFail Proofs.WriterFailProofs.
+From PngV Require Import Model.FrameRect Proofs.FrameRectProofs.
 
 (* the emitted stream of a finished (or dropped) writer is complete and ends in exactly one IEND *)
 Theorem C19_finished_stream_is_complete_with_one_IEND :
@@ -44,19 +46,20 @@ Proof. exact finish_ok_means_nothing_was_lost. Qed.
 
 (* (2) a sink that has started refusing keeps refusing through every image call *)
 Theorem C19_a_refusing_sink_keeps_refusing :
-  forall (validate : bool) (c : wcfg) (s : fstate) (n : nat) (s1 : fstate) (r : fres),
-       refusing s -> f_image validate c s n = (s1, r) -> refusing s1.
+  forall (validate : bool) (c : wcfg) (s : WriterFail.fstate) (n : nat) (s1 : WriterFail.fstate)
+         (r : WriterFail.fres), refusing s -> f_image validate c s n = (s1, r) -> refusing s1.
 Proof. exact refusing_stays_image. Qed.
 
 (* (2) a call that reports the sink error leaves a refusing sink *)
 Theorem C19_sink_error_leaves_a_refusing_sink :
-  forall (validate : bool) (c : wcfg) (s : fstate) (n : nat) (s1 : fstate),
+  forall (validate : bool) (c : wcfg) (s : WriterFail.fstate) (n : nat) (s1 : WriterFail.fstate),
        f_image validate c s n = (s1, FErrSink) -> refusing s1.
 Proof. exact sink_error_refusing. Qed.
 
 (* (2) finish never returns Ok over a refusing sink *)
 Theorem C19_finish_over_a_refusing_sink_is_not_ok :
-  forall (validate : bool) (c : wcfg) (s : fstate), refusing s -> snd (f_finish validate c s) <> FOk.
+  forall (validate : bool) (c : wcfg) (s : WriterFail.fstate),
+       refusing s -> snd (f_finish validate c s) <> FOk.
 Proof. exact finish_refusing. Qed.
 
 (* (3) sequence validation: finish Ok = the complete conformant stream of the declared images, and exactly the declared number of image calls succeeded *)
@@ -67,10 +70,10 @@ Theorem C19_validated_finish_ok_means_complete_stream :
        last (snd (f_history true c budget ns true)) FErrSink = FOk ->
        conformant (header c ++ fst (f_history true c budget ns true)) = true /\
        length
-         (filter (fun r : fres => match r with
-                                  | FOk => true
-                                  | _ => false
-                                  end) (removelast (snd (f_history true c budget ns true)))) =
+         (filter (fun r : WriterFail.fres => match r with
+                                             | FOk => true
+                                             | _ => false
+                                             end) (removelast (snd (f_history true c budget ns true)))) =
        declared_images c.
 Proof. exact validated_finish_ok_means_complete_stream. Qed.
 
@@ -79,7 +82,7 @@ Theorem C19_validated_wrong_count_is_reported :
   forall (c : wcfg) (budget : option nat) (ns : list nat),
        cfg_ok c ->
        Forall (fun n : nat => 1 <= n) ns ->
-       Forall (fun r : fres => r = FOk) (snd (f_history true c budget ns true)) ->
+       Forall (fun r : WriterFail.fres => r = FOk) (snd (f_history true c budget ns true)) ->
        length ns = declared_images c.
 Proof. exact validated_wrong_count_is_reported. Qed.
 
@@ -93,6 +96,43 @@ Theorem C19_healthy_image_call_is_the_writer_model :
         else ({| f_w := w; f_left := None; f_log := log |}, FErrEndReached)).
 Proof. exact f_image_healthy. Qed.
 
+(* invalid frame parameters are reported as errors: a set_frame_dimension / set_frame_position that returns Ok had parameters inside the canvas (and the canvas rectangle before the first image) *)
+Theorem C19_accepted_frame_setter_had_legal_parameters :
+  forall (s : fstate) (o : fop),
+       (0 < cw s)%Z ->
+       (0 < ch s)%Z ->
+       op_u32 o ->
+       rect_ok s ->
+       snd (fstep s o) = FROk ->
+       match o with
+       | FDim w h =>
+           (0 < w)%Z /\
+           (0 < h)%Z /\
+           (r_x (rc s) + w <= cw s)%Z /\
+           (r_y (rc s) + h <= ch s)%Z /\ (written s = false -> w = cw s /\ h = ch s)
+       | FPos x y =>
+           (0 <= x)%Z /\
+           (0 <= y)%Z /\
+           (x + r_w (rc s) <= cw s)%Z /\
+           (y + r_h (rc s) <= ch s)%Z /\ (written s = false -> x = 0%Z /\ y = 0%Z)
+       | _ => True
+       end.
+Proof. exact accepted_setter_was_legal. Qed.
+
+(* a refused setter leaves the writer as it was *)
+Theorem C19_refused_frame_setter_changes_nothing :
+  forall (s : fstate) (o : fop), snd (fstep s o) = FRErr -> fst (fstep s o) = s.
+Proof. exact refused_setter_changes_nothing. Qed.
+
+(* the rectangle held for the following frames is legal in every reachable state *)
+Theorem C19_frame_rectangle_invariant :
+  forall (s : fstate) (o : fop),
+       (0 < cw s)%Z ->
+       (0 < ch s)%Z ->
+       op_u32 o ->
+       rect_ok s -> rect_ok (fst (fstep s o)) /\ cw (fst (fstep s o)) = cw s /\ ch (fst (fstep s o)) = ch s.
+Proof. exact step_keeps_rect_ok. Qed.
+
 Example C19_nonvacuous : conformant [KIHDR; KIDAT; KIEND; KIEND] = false /\ conformant [KIHDR; KIDAT] = false /\ conformant [KIHDR; KIDAT; KIEND] = true.
 Proof. vm_compute. repeat split; reflexivity. Qed.
 
@@ -104,6 +144,12 @@ Example C19_failing_sink_demo :
   f_history true c None [1] true = ([KFCTL 0; KIDAT; KIEND], [FOk; FErrMissingFrames]) /\
   f_history true c None [1; 1; 1] true = ([KFCTL 0; KIDAT; KFCTL 1; KFDAT 2; KIEND], [FOk; FOk; FErrEndReached; FOk]).
 Proof. exact writer_fail_demo. Qed.
+(* non-vacuity of the frame-rectangle statements: setters before the first image refused, sub-rectangles after it accepted, an overflowing position refused *)
+Example C19_rect_demo :
+  (frun_codes 8 8 [FDim 4 4; FPos 1 1; FImage; FDim 4 4; FPos 5 1; FPos 4 4; FImage; FResetPos; FResetDim; FImage]
+  = [[1]; [1]; [2; 8; 8; 0; 0]; [0]; [1]; [0]; [2; 4; 4; 4; 4]; [0]; [0]; [2; 8; 8; 0; 0]])%Z.
+Proof. exact rect_demo. Qed.
+
 Print Assumptions C19_finished_stream_is_complete_with_one_IEND.
 Print Assumptions C19_IEND_accepted_only_at_a_complete_stream.
 Print Assumptions C19_iend_at_most_once_and_last.
@@ -114,3 +160,6 @@ Print Assumptions C19_finish_over_a_refusing_sink_is_not_ok.
 Print Assumptions C19_validated_finish_ok_means_complete_stream.
 Print Assumptions C19_validated_wrong_count_is_reported.
 Print Assumptions C19_healthy_image_call_is_the_writer_model.
+Print Assumptions C19_accepted_frame_setter_had_legal_parameters.
+Print Assumptions C19_refused_frame_setter_changes_nothing.
+Print Assumptions C19_frame_rectangle_invariant.
